@@ -13,6 +13,7 @@ import (
 	"encoding/hex"
 	"fmt"
 	"io"
+	"massnet.org/mass/poc/wallet/db"
 	"os"
 	"path/filepath"
 	"regexp"
@@ -355,7 +356,19 @@ func main() {
 		Prop: "C06", N: nseq, MinSteps: run.N(12, 15), MaxSteps: run.N(22, 40), Hostile: 10, EarlyUnlock: 40,
 		W: wl.Weights{"create": 5, "next": 10, "genpub": 16, "remark": 1, "chpriv": 2, "chpub": 1, "delete": 2,
 			"export": 4, "import": 5, "lock": 5, "unlock": 6, "sign": 1, "restart": 8},
+		Before: func(e *wl.Env) {
+			// from the first restart on the wallet runs over a fault-injecting store (disarmed = pass-through)
+			e.Wrap = func(d db.DB) db.DB { return wl.NewFaultDB(d) }
+		},
 		Mutate: func(r *vh.Rng, ops []wl.Op) []wl.Op {
+			if r.Chance(1, 2) {
+				// a request whose commit fails, then requests that must neither repeat nor skip a key, across a restart
+				pos := 1 + r.Intn(len(ops))
+				ins := []wl.Op{{Kind: "restart"}, {Kind: "genpub"}, {Kind: "genpub", CommitFault: true}, {Kind: "genpub"}, {Kind: "genpub", CommitFault: r.Bool()}, {Kind: "restart"}, {Kind: "genpub"}}
+				out := append([]wl.Op{}, ops[:pos]...)
+				out = append(out, ins...)
+				ops = append(out, ops[pos:]...)
+			}
 			if r.Chance(1, 3) {
 				return ops
 			}
